@@ -144,6 +144,7 @@ func segString(segs []keySeg) string {
 func checkC16(P *core.Program, R *core.Report) {
 	defer checkOracleMsgFieldsApplied(P, R)
 	defer checkMsgListsExhausted(P, R)
+	defer checkFeederRemoval(P, R, "C16-feeder-removed")
 	defer checkPriceStamped(P, R)
 	R.Explanation = "Key schema (R8): the oracle price key builders are abstractly interpreted into segment sequences (Const / Var(param) / Fixed(8) / LenPrefixed); every (reverse) prefix scan in the oracle keeper whose prefix ends in an unterminated variable segment must filter — each `found` return inside the scan loop is dominated by equality between the decoded record's field and every variable argument of the prefix (the repair of F-16); SetPrice/GetPrice/RemovePrice share PriceKey whose last segment is the fixed-width big-endian timestamp, so reverse iteration yields the newest entry of one (asset, source). " +
 		"Source preference: GetAssetPrice looks up ELYS, then BAND, then any source, each later lookup only under ¬found of the earlier. No info / no price ⇒ zero: GetAssetPriceFromDenom returns the zero constant on both ¬found edges and prices info.Display of that denom. " +
@@ -1244,5 +1245,66 @@ func checkPriceStamped(P *core.Program, R *core.Report) {
 	}
 	if n < 2 {
 		R.Add(rule, "-", "Price literals", "-", false, fmt.Sprintf("only %d price literals found in consensus code (anchor changed)", n))
+	}
+}
+
+// checkFeederRemoval (C16-feeder-removed): the self-service message MsgSetPriceFeeder lets a
+// *registered* feeder switch its own record on and off, so taking the right to feed away
+// means deleting the record.  The governance removal handler therefore passes, for every
+// listed address (every iteration of its loop), a call of Keeper.RemovePriceFeeder, whose
+// body deletes the store entry under the key of its argument.  A "retire, keep the record"
+// variant leaves an account that can re-activate itself and overwrite prices again.
+func checkFeederRemoval(P *core.Program, R *core.Report, rule string) {
+	const hk = "x/oracle/keeper.msgServer.RemovePriceFeeders"
+	const rk = "x/oracle/keeper.Keeper.RemovePriceFeeder"
+	h, rm := P.Fn(hk), P.Fn(rk)
+	if h == nil || rm == nil {
+		R.Add(rule, hk, "function", "-", false, "unresolved anchor")
+		return
+	}
+	// the remover deletes
+	deletes := false
+	for _, c := range core.Calls(rm) {
+		if P.EffectOf(c) == core.EffStoreWrite && core.CalleeName(c.Common()) == "Delete" {
+			deletes = true
+		}
+	}
+	R.Add(rule, rk, "deletes the feeder record", P.Pos(rm.Pos()), deletes, "removing a feeder deletes its store entry (a deactivated record can be switched back on by its owner)")
+	ff := P.Facts(h)
+	isRm := func(in ssa.Instruction) bool {
+		c, ok := in.(ssa.CallInstruction)
+		return ok && calleeMatches(P, c, rk)
+	}
+	n := 0
+	for _, hd := range h.Blocks {
+		if len(hd.Instrs) == 0 || len(hd.Succs) != 2 {
+			continue
+		}
+		iff, ok := hd.Instrs[len(hd.Instrs)-1].(*ssa.If)
+		if !ok {
+			continue
+		}
+		bo, ok := iff.Cond.(*ssa.BinOp)
+		if !ok || bo.Op != token.LSS {
+			continue
+		}
+		if _, isLen := lenOf(ff, bo.Y); !isLen {
+			continue
+		}
+		body := hd.Succs[0]
+		if len(body.Instrs) == 0 {
+			continue
+		}
+		n++
+		skips := false
+		if isRm(body.Instrs[0]) {
+			skips = false
+		} else if _, reach := core.ReachesWithout(h, body.Instrs[0], func(in ssa.Instruction) bool { return in.Block() == hd }, isRm); reach {
+			skips = true
+		}
+		R.Add(rule, hk, "every listed feeder is deleted", P.Pos(P.InstrPos(iff)), !skips, "each iteration over the listed addresses passes Keeper.RemovePriceFeeder")
+	}
+	if n == 0 {
+		R.Add(rule, hk, "loop over the listed feeders", P.Pos(h.Pos()), false, "no loop found (anchor changed)")
 	}
 }
